@@ -108,7 +108,11 @@ void* thread_main(void* arg) {
             } else release(t, s);
         } else {
             int fam = o.kind % 3; void* p;
-            if (fam == 0) p = ::operator new(o.size); else if (fam == 1) p = ::operator new[](o.size); else p = cpputest_malloc_location(o.size, "thread.c", 1);
+            if (fam == 0) p = (o.kind & 64) ? ::operator new(o.size, std::nothrow) : ::operator new(o.size);
+            else if (fam == 1) p = (o.kind & 64) ? ::operator new[](o.size, std::nothrow) : ::operator new[](o.size);
+            else if (o.kind & 64) p = cpputest_realloc_location(nullptr, o.size, "thread.c", 4);   // realloc(NULL, n) is an allocation too
+            else if (o.kind & 32) p = cpputest_calloc_location(1, o.size, "thread.c", 5);
+            else p = cpputest_malloc_location(o.size, "thread.c", 1);
             if (!p) { if (!t->bad) { t->bad = 1; snprintf(t->badmsg, sizeof t->badmsg, "allocation returned NULL"); } continue; }
             t->ptr[s] = p; t->sz[s] = o.size; t->fam[s] = (uint8_t)fam; fill(t, s);
         }
